@@ -76,6 +76,17 @@ def run(seed=0, tier='quick', hints=None, broken=False):
             check(c['cls'], [c], dict(case, channels=None), viol, lattice=False)
             evals += 1
             seen.add((c['cls'], shape))
+    # CropAndPad: every axis pattern once, without and with the resize back to the input frame (nearest order, so the
+    # mask must show the voxel the image shows)
+    for rep in range(1 if tier == 'quick' else 10):
+        for c in S.crop_and_pad_sweep(rng):
+            shape = tuple(rng.sample([5, 6, 7, 8, 9, 10], 3))
+            case = {'shape': list(shape), 'seed': R.pick_seed(rng), 'channels': rng.choice([None, None, 3])}
+            check('CropAndPad', [c], case, viol)
+            k = dict(c, args=dict(c['args'], keep_size=True, interpolation=0))
+            check('CropAndPad-keep_size', [k], dict(case, channels=None), viol, lattice=False)
+            evals += 2
+            seen.add(('CropAndPad-sweep', repr(c['args'].get('px', c['args'].get('percent')))))
     return {'violations': viol, 'info': {'evaluations': evals, 'distinct': len(seen),
                                          'what': 'mask / masks / additional targets vs image path on labelled volumes'}}
 
